@@ -131,6 +131,8 @@ pub enum Extr {
     Common,
     BestObjective,
     Missing,
+    /// size of the current (top) population; the stack holds two populations of different sizes
+    PopulationSize,
 }
 
 #[derive(Clone, Debug, Serialize, Deserialize)]
@@ -147,6 +149,22 @@ pub struct LogCase {
     /// trigger of the first of them (only applied when that trigger is stateless and none of them is `with_common`)
     #[serde(default)]
     pub many: Option<(u8, u8)>,
+    /// sizes (1 + x % 5 each; made different) of the two populations on the stack, bottom then top
+    #[serde(default)]
+    pub pops: (u8, u8),
+    /// the loop condition is `LessThanN::iterations(n) | LessThanN::iterations(max(1, n / 2))`: the same passes, but the
+    /// progress state (written last by the second operand) runs up to n / (n / 2) >= 2
+    #[serde(default)]
+    pub half_bound: bool,
+}
+
+fn pop_sizes(c: &LogCase) -> (usize, usize) {
+    let a = 1 + (c.pops.0 % 5) as usize;
+    let mut b = 1 + (c.pops.1 % 5) as usize;
+    if a == b {
+        b += 1;
+    }
+    (a, b)
 }
 
 /// `LogCase::best`: i32::MAX encodes a best individual whose objective value is +inf (an infeasible solution)
@@ -250,6 +268,7 @@ impl<'a> LogModel<'a> {
             Extr::Common => vec![(EV_NAME.into(), self.case.evaluations.map_or(V::Null, |v| V::Int(v as i128))), (PR_NAME.into(), vf(self.progress))],
             Extr::BestObjective => vec![("BestObjectiveValue".into(), self.case.best.map_or(V::Null, |b| vf(best_value(b))))],
             Extr::Missing => vec![("never-inserted".into(), V::Null)],
+            Extr::PopulationSize => vec![("PopulationSize".into(), V::Int(pop_sizes(self.case).1 as i128))],
         }
     }
     /// One logger execution. Err(()) if a trigger fails (the run then fails).
@@ -295,7 +314,7 @@ impl<'a> LogModel<'a> {
         }
         let mut i = 0;
         loop {
-            self.progress = i as f64 / n as f64;
+            self.progress = if self.case.half_bound { i as f64 / (n / 2).max(1) as f64 } else { i as f64 / n as f64 };
             if i >= n {
                 break;
             }
@@ -377,7 +396,7 @@ impl Check for LogCheck {
         "C15/log".into()
     }
     fn classes(&self) -> &'static [&'static str] {
-        &[">= 3 steps", "duplicate name among fired rules", "missing source (null entry)", "execution where nothing fires", "rule produces the iteration entry itself", "logger in a scope", "trigger error", "rules registered through with_many"]
+        &[">= 3 steps", "duplicate name among fired rules", "missing source (null entry)", "execution where nothing fires", "rule produces the iteration entry itself", "logger in a scope", "trigger error", "rules registered through with_many", "progress state above 1 while logged"]
     }
     fn oracle(&self, c: &LogCase) -> Outcome {
         let mut cl = 0;
@@ -419,6 +438,7 @@ fn extractor_of(e: &Extr) -> Box<dyn mahf::logging::extractor::EntryExtractor<Re
         Extr::Evaluations => IdLens::<Evaluations>::entry::<RealP>(),
         Extr::BestObjective => BestObjectiveValueLens::<RealP>::entry(),
         Extr::Missing | Extr::Common => Box::new(MissingLens),
+        Extr::PopulationSize => mahf::lens::common::PopulationSizeLens::<RealP>::entry(),
     }
 }
 
@@ -464,12 +484,24 @@ fn log_oracle(c: &LogCase, cl: &mut u64) -> Result<(), Failure> {
     // real run
     let n = c.iters;
     let body_logger = |b: mahf::configuration::ConfigurationBuilder<RealP>| b.do_(Logger::new());
+    let half = c.half_bound;
+    #[allow(non_snake_case)]
+    let LessThanN_iterations = move |n: u32| -> Box<dyn Condition<RealP>> {
+        if half {
+            LessThanN::iterations(n) | LessThanN::iterations((n / 2).max(1))
+        } else {
+            LessThanN::iterations(n)
+        }
+    };
+    if half {
+        *cl |= 256;
+    }
     let cfg: Configuration<RealP> = match c.structure % 5 {
-        0 => Configuration::builder().while_(LessThanN::iterations(n), |b| body_logger(b.do_(Box::new(Bump)))).build(),
-        1 => Configuration::builder().do_(Logger::new()).while_(LessThanN::iterations(n), |b| b.do_(Box::new(Bump))).do_(Logger::new()).build(),
-        2 => Configuration::builder().while_(LessThanN::iterations(n), |b| b.do_(Logger::new()).do_(Box::new(Bump)).do_(Logger::new())).build(),
-        3 => Configuration::builder().while_(LessThanN::iterations(n), |b| b.do_(Box::new(Bump)).if_(EveryN::iterations(2), body_logger)).build(),
-        _ => Configuration::builder().while_(LessThanN::iterations(n), |b| b.do_(Box::new(Bump)).scope_(body_logger)).build(),
+        0 => Configuration::builder().while_(LessThanN_iterations(n), |b| body_logger(b.do_(Box::new(Bump)))).build(),
+        1 => Configuration::builder().do_(Logger::new()).while_(LessThanN_iterations(n), |b| b.do_(Box::new(Bump))).do_(Logger::new()).build(),
+        2 => Configuration::builder().while_(LessThanN_iterations(n), |b| b.do_(Logger::new()).do_(Box::new(Bump)).do_(Logger::new())).build(),
+        3 => Configuration::builder().while_(LessThanN_iterations(n), |b| b.do_(Box::new(Bump)).if_(EveryN::iterations(2), body_logger)).build(),
+        _ => Configuration::builder().while_(LessThanN_iterations(n), |b| b.do_(Box::new(Bump)).scope_(body_logger)).build(),
     };
     let problem = RealP::new(1, -1.0, 1.0, RealKind::Sphere);
     tl_reset(None);
@@ -494,6 +526,12 @@ fn log_oracle(c: &LogCase, cl: &mut u64) -> Result<(), Failure> {
             }
             if let Some(e) = case.evaluations {
                 state.insert(Evaluations(e));
+            }
+            {
+                let (a, b) = pop_sizes(&case);
+                let mut ps = state.populations_mut();
+                ps.push((0..a).map(|k| Individual::new_unevaluated(vec![k as f64])).collect());
+                ps.push((0..b).map(|k| Individual::new_unevaluated(vec![k as f64])).collect());
             }
             if let Some(b) = case.best {
                 let mut bi = BestIndividual::<RealP>::new();
@@ -524,6 +562,7 @@ fn log_oracle(c: &LogCase, cl: &mut u64) -> Result<(), Failure> {
                         Extr::Common => cfg.with_common(trig),
                         Extr::BestObjective => cfg.with(trig, BestObjectiveValueLens::<RealP>::entry()),
                         Extr::Missing => cfg.with(trig, Box::new(MissingLens)),
+                        Extr::PopulationSize => cfg.with(trig, mahf::lens::common::PopulationSizeLens::<RealP>::entry()),
                     };
                 }
                 Ok(())
@@ -680,7 +719,7 @@ fn renumber_scripts(t: &mut Trig, next: &mut u16) {
 }
 
 fn log_strategy() -> impl Strategy<Value = LogCase> {
-    let extr = prop_oneof![6 => (0u8..5).prop_map(Extr::H), 2 => Just(Extr::Iterations), 1 => Just(Extr::Evaluations), 1 => Just(Extr::Common), 1 => Just(Extr::BestObjective), 1 => Just(Extr::Missing)];
+    let extr = prop_oneof![6 => (0u8..5).prop_map(Extr::H), 2 => Just(Extr::Iterations), 1 => Just(Extr::Evaluations), 1 => Just(Extr::Common), 1 => Just(Extr::BestObjective), 1 => Just(Extr::Missing), 1 => Just(Extr::PopulationSize)];
     (proptest::collection::vec((trig_strategy(), extr), 0..7), proptest::option::of((0u8..3, 0u8..7)), 0u8..5, 0u32..13, [any::<bool>(), any::<bool>(), any::<bool>(), any::<bool>(), any::<bool>()], proptest::option::of(0u32..100), proptest::option::of(prop_oneof![5 => -5i32..50, 1 => Just(i32::MAX)]), proptest::option::of((any::<u8>(), any::<u8>())))
         .prop_map(|(mut rules, change, structure, iters, present, evaluations, best, many)| {
             // at most one ChangeOf trigger (they share their `Previous` state by value type)
@@ -694,7 +733,7 @@ fn log_strategy() -> impl Strategy<Value = LogCase> {
             }
             // the progress value after a zero-iteration loop is 0/0
             let iters = if structure % 5 == 1 { iters.max(1) } else { iters };
-            LogCase { rules, structure, iters, present, evaluations, best, many }
+            LogCase { rules, structure, iters, present, evaluations, best, many, pops: (many.map_or(2, |m| m.0), many.map_or(0, |m| m.1)), half_bound: iters % 3 == 2 }
         })
 }
 
@@ -1169,7 +1208,7 @@ fn tpl_oracle(c: &TplCase, cl: &mut u64) -> Result<(), Failure> {
 }
 
 pub fn run_all(ctx: &mut Ctx, replay: Option<&Path>) {
-    ctx.rule("log: case = (0-6 rules of trigger x extractor, logger placement {loop body, before+after the loop, twice per pass, inside a branch, inside a scope}, 0-12 iterations, which source states exist); triggers: always / never / every-n / scripted / change-of (at most one) / And-Or-Not of those; extractors: five harness lenses (two share a name), the iteration counter, evaluations, with_common, best objective value (finite, or +inf for an infeasible best individual: null in JSON, inf in CBOR), a lens on a state that is never inserted. A reference model predicts the exact sequence of steps and entries; compared with the in-memory log (order preserving), the JSON export expanded through its name table, and the CBOR export; non-trivial = >= 3 steps with a duplicate name and a missing source. export: generated configuration trees over control flow and a catalogue of 38 shipped components (incl. the Linear / Polynomial mappings over lenses of generic state types: progress of the iteration counter vs. progress of the evaluation counter) / 4 conditions with numeric parameters: RON serialisation succeeds, the recorded serde structure has every component under its struct name with its parameter values and the state types its lenses read in its nesting position, a structural or parameter edit changes the RON text, clone and rebuild give identical text; non-trivial = >= 6 nodes and depth >= 3. templates: all 21 with two parameter draws: to_ron writes the same text as the in-memory serialisation, different parameters / iteration bounds give different text; distinct by case");
+    ctx.rule("log: case = (0-6 rules of trigger x extractor, logger placement {loop body, before+after the loop, twice per pass, inside a branch, inside a scope}, 0-12 iterations, which source states exist); triggers: always / never / every-n / scripted / change-of (at most one) / And-Or-Not of those; extractors: five harness lenses (two share a name), the iteration counter, evaluations, with_common, the size of the current population while two populations of different size are on the stack, best objective value (finite, or +inf for an infeasible best individual: null in JSON, inf in CBOR), a lens on a state that is never inserted. A reference model predicts the exact sequence of steps and entries; compared with the in-memory log (order preserving), the JSON export expanded through its name table, and the CBOR export; non-trivial = >= 3 steps with a duplicate name and a missing source. export: generated configuration trees over control flow and a catalogue of 38 shipped components (incl. the Linear / Polynomial mappings over lenses of generic state types: progress of the iteration counter vs. progress of the evaluation counter) / 4 conditions with numeric parameters: RON serialisation succeeds, the recorded serde structure has every component under its struct name with its parameter values and the state types its lenses read in its nesting position, a structural or parameter edit changes the RON text, clone and rebuild give identical text; non-trivial = >= 6 nodes and depth >= 3. templates: all 21 with two parameter draws: to_ron writes the same text as the in-memory serialisation, different parameters / iteration bounds give different text; distinct by case");
     ctx.assume("loggers are only placed in configurations that contain a loop (the iteration entry needs the counter)");
     ctx.assume("not part of the serialisation by documentation: Debug closures, Scope function pointers, identifier type parameters held in plain PhantomData");
     ctx.assume("at most one change-of trigger per log configuration (their `previous value` state is shared per value type)");
